@@ -178,6 +178,33 @@ CLAIMED["C08"] = (
     "TLC/SANY; the projection parser (validated on the spec's own renderings); leaf values and function ids sampled from seeded pools; "
     "fixture formulas with named ranges / cross-table references are outside the projection's grammar and only counted",
     "DESIGN.md §4 C08")
+CLAIMED["C17"] = (
+    "TLC model checking of Loader.tla (the load pipeline with every single fault and pair of faults; Total; pinned-tree variant refuted); every "
+    "fault set TLC enumerates materialised on real documents by a fault injector, plus random truncations and bit flips stratified by zip "
+    "region; the loader's outcome class judged by TLC (Trace_Loader)",
+    "Loader.tla walks the stages of IWork.open / ObjectStore.__init__ (exists, suffix, zip directory, plist, encryption marker, each archive "
+    "member: read, sniff, un-frame, parse, store; store initialisation) with faults attached to stages, and checks that the outcome is a document "
+    "or one of the three library error types for all 7 672 fault sets; the untranslated paths of the pinned tree are shown to violate Total. Each "
+    "fault set (11 container faults, 12 member faults at the first/middle/last member, also inside a nested Index.zip) is written into real files "
+    "with the harness's zip/IWA code and opened with ObjectStore(path); random truncation lengths and 1-4 bit flips in member data, local headers "
+    "and the central directory are added per document. Level A: no foreign exception class escapes from loading; which library class is raised is "
+    "Level B (DRIFT).",
+    "TLC/SANY; 'loading' = ObjectStore(path); failures while later interpreting a container whose archives were dropped are noted, not judged",
+    "DESIGN.md §4 C17")
+CLAIMED["C20"] = (
+    "TLC model checking of CsvPipeline.tla (grids of cell classes x header x reverse; the converter's dict/2x2/float representation vs the "
+    "Level-A relation, mutants refuted); every sampled TLC grid concretised, converted by the in-process csv2numbers main and exported by "
+    "cat-numbers -b main, per-cell results judged by TLC (Trace_CsvPipeline over Decimal.tla)",
+    "CsvPipeline.tla labels every cell so that lost, merged or reordered cells are visible and checks that the converter's representation "
+    "yields the Level-A grid (same shape, classes kept, special floats stay text, rows reversed iff asked) for every grid up to 2x3/3x3 over "
+    "{empty, number, special float, text, duplicate header}; DuplicateHeaderCollapse / MinShape / SpecialFloatCoerced are refuted. Abstract "
+    "grids (and tilings to 1..40 x 1..12) are concretised with seeded spellings (delimiters, quotes, CR/LF, non-ASCII, thousands commas, "
+    "exponents, signs, underscores, non-ASCII digits, nan/inf/1e400), run through both command-line entry points in-process with "
+    "stdout/stderr/exit status captured, and TLC judges shape, text identity code point by code point, numeric equality on digit sequences "
+    "and 'ok or one-line error, never a crash'.",
+    "TLC/SANY; Python's csv module (excel dialect) as reference reader/writer; cells classified by the documented conversion; numeric spellings "
+    "of at most 15 significant digits; duplicate header names are a recorded known finding (F17b)",
+    "DESIGN.md §4 C20")
 NOT_YET = "check not built yet in this round (planned: see DESIGN.md section for this property)"
 NA = {}
 
